@@ -9,11 +9,12 @@ parses the generated specification and compares it with the index pattern the te
     one letter shared by its row and its column and by nothing else;
   * trace_out_vector / measure_vector / measure_matrix: kept letters in input order.
 Subsystems are plain integers here (the generators only use `in`, list order and dictionary keys)."""
+import os
 import sys
 from typing import List
 
 sys.path.insert(0, "/verif/symx/jaxshim")
-sys.path.insert(1, "/repo")
+sys.path.insert(1, os.environ.get("PW_REPO", "/repo"))
 import photon_weave.extra.einsum_constructor as ESC
 
 
